@@ -43,6 +43,7 @@ type Solver struct {
 	NUnknown  int
 	NErrors   int
 	SolveTime time.Duration
+	ModelTime time.Duration
 }
 
 func NewSolver(kind string, timeoutMs int, logPath string) (*Solver, error) {
@@ -235,6 +236,8 @@ func (s *Solver) GetModel(vars []*Term) map[string]uint64 {
 	if len(names) == 0 {
 		return m
 	}
+	t0 := time.Now()
+	defer func() { s.ModelTime += time.Since(t0) }()
 	s.send("(get-value (" + strings.Join(names, " ") + "))")
 	// read balanced s-expression
 	depth := 0
